@@ -24,7 +24,7 @@ EXPLANATION = (
     "carries the time-step counter; the dap column carries the state's dap. C07.d: the planting / harvest year lists "
     "derived at initialisation are not mutated in place while another name aliases the same list. C07.e: crop_mature is set only under `<clock> >= crop.Maturity` "
     "where the clock's normal form is the state's own days-after-planting (under CalendarType == 1) or cumulative degree days (under "
-    "CalendarType == 2) of that day - not a delay-adjusted or otherwise shifted clock - and both calendar types are covered. C07.f: crop_mature, crop_dead, harvest_flag and dap are cleared on every path of the season reset (literal setattr loops are expanded). C07.g: the growing-season window excludes the step that starts on the harvest date (the summary is written on the step that ends on it), so the season's length does not depend on the off-season flag. C07.h: the day offset from which a missing harvest date is derived (kept as month/day; seasons recur yearly) has a constant bound <= 364 - a larger offset wraps round the year and cuts every season short. C07.j: both 'another season follows' tests of update_time have the normal form season_counter < n_seasons - 1 on the clock's current counter. C07.k: for a crop whose season lies within a calendar year the last calendar year of the window is dropped from the schedule exactly when the end date (month/day) is on or before the planting day - the test is resolved through locals and negations, its two sides by provenance (end date vs planting date, not the start or harvest date). C07.l: growing_season = True is reached only under planting date reached, harvest date not reached, crop not mature and crop not dead (C07.g now reads chained comparisons and comparisons held in locals too). C07.m (the run always terminates - inner loops; T-LOOP, shared with C16.n): every while loop has a visible reason to stop (stepped counter against an invariant bound on every cycle, countdown, counter-driven flag, listed derived / delegated / guarded convergence loops). NOT decided: the remaining "
+    "CalendarType == 2) of that day - not a delay-adjusted or otherwise shifted clock - and both calendar types are covered. C07.f: crop_mature, crop_dead, harvest_flag and dap are cleared on every path of the season reset (literal setattr loops are expanded). C07.g: the growing-season window excludes the step that starts on the harvest date (the summary is written on the step that ends on it), so the season's length does not depend on the off-season flag. C07.h: the day offset from which a missing harvest date is derived (kept as month/day; seasons recur yearly) has a constant bound <= 364 - a larger offset wraps round the year and cuts every season short. C07.j: both 'another season follows' tests of update_time have the normal form season_counter < n_seasons - 1 on the clock's current counter. C07.k: for a crop whose season lies within a calendar year the last calendar year of the window is dropped from the schedule exactly when the end date (month/day) is on or before the planting day - the test is resolved through locals and negations, its two sides by provenance (end date vs planting date, not the start or harvest date). C07.l: growing_season = True is reached only under planting date reached, harvest date not reached, crop not mature and crop not dead (C07.g now reads chained comparisons and comparisons held in locals too). C07.m (the run always terminates - inner loops; T-LOOP, shared with C16.n): every while loop has a visible reason to stop (stepped counter against an invariant bound on every cycle, countdown, counter-driven flag, listed derived / delegated / guarded convergence loops). C07.n: the days to maturity from which a missing latest harvest date is derived are read from the calendar computed for this window (the result of compute_crop_calendar), not from the crop object's tabulated attribute (backward slice of the day offset). NOT decided: the remaining "
     "planting / harvest year arithmetic itself (numeric).")
 
 L = frozenset
@@ -585,6 +585,47 @@ def rule_h(chk, prog):
                           "for a crop that needs 335 days or more to mature the date wraps round the year and every season is cut "
                           f"(offset - 365) days after planting (bound found: {ub})", loc=f.loc(node))
     chk.floor("C07.h", n, 1, "day offsets added to the planting date in read_model_parameters")
+    # C07.n: the days to maturity the offset is computed from are those of the calendar computed for THIS window's weather (the result of
+    # compute_crop_calendar), not the tabulated attribute of the crop object: for thermal-time crops the catalogue's MaturityCD is a nominal
+    # length, and a latest harvest date derived from it ends the season before the crop is mature in thermal time.
+    n2 = 0
+    for node in walk_no_nested(f.node):
+        if not (isinstance(node, ast.Call) and norm(node.func) in ("np.timedelta64", "pd.Timedelta", "timedelta", "datetime.timedelta", "pd.to_timedelta", "pd.DateOffset")):
+            continue
+        arg = node.args[0] if node.args else next((k.value for k in node.keywords if k.arg in ("days", "value")), None)
+        nid = flow.node_of(node)
+        if arg is None or nid is None:
+            continue
+        reads = []          # (attribute node, cfg node) of every `<obj>.MaturityCD`-like read in the backward slice of the offset
+
+        def slice_(e, at, depth=0, seen=None):
+            seen = set() if seen is None else seen
+            for x in ast.walk(e):
+                if isinstance(x, ast.Attribute) and isinstance(x.value, ast.Name) and x.attr.startswith("Maturity"):
+                    reads.append((x, at))
+                if isinstance(x, ast.Name) and isinstance(x.ctx, ast.Load) and depth < 6:
+                    for d in flow.defs_reaching(x.id, at):
+                        if d == ENTRY or (x.id, d) in seen:
+                            continue
+                        seen.add((x.id, d))
+                        a = cfg.nodes[d].ast
+                        if isinstance(a, ast.Assign) and not (isinstance(a.value, ast.Call) and hasattr(prog.resolve_call(f, a.value), "params")):
+                            slice_(a.value, d, depth + 1, seen)
+        slice_(arg, nid)
+        for x, at in reads:
+            n2 += 1
+            base = x.value.id
+            ds = [d for d in flow.defs_reaching(base, at)]
+            from_calendar = bool(ds) and all(
+                d != ENTRY and isinstance(cfg.nodes[d].ast, ast.Assign) and isinstance(cfg.nodes[d].ast.value, ast.Call)
+                and getattr(prog.resolve_call(f, cfg.nodes[d].ast.value), "name", "") == "compute_crop_calendar" for d in ds)
+            construct = f"{norm(x)} in the day offset of the derived harvest date"
+            if from_calendar:
+                chk.ok("C07.n", where, construct, "days to maturity of the calendar computed for this window (result of compute_crop_calendar)")
+            else:
+                chk.violation("C07.n", where, construct, f"the offset of the derived latest harvest date reads `{norm(x)}` from an object that is not the calendar computed for this "
+                              "window: the tabulated days to maturity of a thermal-time crop are nominal - the season is harvested before the crop is mature", loc=f.loc(x))
+    chk.floor("C07.n", n2, 1, "days-to-maturity reads in the offset of the derived harvest date")
 
 
 def rule_i(chk, prog):
